@@ -238,7 +238,7 @@ func c20Run(c *c20Case, ctl *metric.Ctl, st *c20Stats) {
 					v.ExcKind = "unlimited_rule"
 					st.add(v)
 				}
-				if !cur[x] {
+				if !cur[x] && s[c20Thr] != 0 { // threshold 0: blocked by the settings
 					st.add(mk("spam_but_not_banned", x))
 				}
 			}
